@@ -96,7 +96,7 @@ func Prepare() (*Env, error) {
 	sum, _ := os.ReadFile(filepath.Join(e.Src, "go.sum"))
 	os.WriteFile(filepath.Join(e.Scratch, "go.sim.sum"), sum, 0644)
 	e.SimBin = filepath.Join(e.Scratch, "bin", "stgutg-sim")
-	if err := runCmd(e.Src, goEnv(), "go", "build", "-tags", "faketime", "-modfile="+modfile, "-o", e.SimBin, "."); err != nil {
+	if err := runCmd(e.Src, goEnv(), "go", "build", "-trimpath", "-tags", "faketime", "-modfile="+modfile, "-o", e.SimBin, "."); err != nil {
 		return e, fmt.Errorf("building the emulator from /repo failed: %v", err)
 	}
 	return e, nil
@@ -151,7 +151,7 @@ func (e *Env) BuildRig(name string, faketime bool, srcOverride string) (string, 
 	sum, _ := os.ReadFile(filepath.Join(e.Src, "go.sum"))
 	os.WriteFile(filepath.Join(rdir, "go.sum"), sum, 0644)
 	bin := filepath.Join(e.Scratch, "bin", "rig-"+name)
-	args := []string{"build"}
+	args := []string{"build", "-trimpath"} // scratch paths differ from run to run: without -trimpath nothing is ever found in the build cache
 	if faketime {
 		args = append(args, "-tags", "faketime")
 	}
